@@ -1,7 +1,8 @@
 package stdlib
 
 const (
-	zzMaxDelim = 3
-	zzMaxStr   = 5
-	zzMaxElem  = 2
+	zzMaxDelim   = 3
+	zzMaxStr     = 5
+	zzMaxElem    = 2
+	zzParPreempt = 2
 )
